@@ -10,14 +10,55 @@ NOTE_COMMON = ("Trusted: Lean 4.33.0 kernel (axioms propext, Classical.choice, Q
                "harness (model<->code agreement tested on generated inputs, not proved); CPython/OS semantics modelled. ")
 
 # property -> (technique, level text, extra note, design section)
+T_CORR = " + regenerated constants (extract.py) + model/implementation correspondence (compiled Lean driver vs real code on generated inputs) + Spec oracle on the real outputs"
+
 CLAIMED = {
-    "C06": ("Lean 4 theorem (validator = Unicode Table 3-7 for all byte strings, via generated DFA table, decide +kernel) "
-            "+ regenerated table + model/implementation correspondence + Spec oracle on real outputs",
+    "C01": ("Lean 4 theorem C01_wire (format output decodes to the requested frame, minimal length form, for all payloads/keys/opcodes)" + T_CORR,
+            "Proof: `C01_wire` — for every payload < 2^63 bytes, FIN in {0,1}, opcode in the generated table and 4-byte key, ABNF.format's "
+            "output is read back by the RFC decoder as exactly that frame with MASK set, that key, the minimal length form, the payload, nothing "
+            "left, and length = header+4+payload; masking = positional XOR and an involution. Key drawn once per frame, return value, short "
+            "writes, str payloads, trace on/off and API wrappers are tied by correspondence/oracle over every length 0..300, 65400..65700 "
+            "(thorough: 0..70000).", "Not modelled: latin-1 path for str payload with non-text opcode; non-ASCII str keys.", "DESIGN.md §6 C01"),
+    "C02": ("Lean 4 theorem spec_decode_encode (RFC decoder inverts RFC encoder for every header/length form/mask, exact rest)" + T_CORR,
+            "Proof: the Spec decoder is proved to invert the encoder for all frames (so 'what an independent decoder extracts' is pinned for "
+            "every frame); the staged parser model (frame_buffer) is tied to the real parser by correspondence on all 256 first bytes x "
+            "length classes x masks and random multi-frame streams, and the real outputs are judged by that decoder. The refinement "
+            "model-parser = Spec decoder is work in progress (WS.Lemmas.RecvStrict).", "", "DESIGN.md §6 C02"),
+    "C03": ("model/implementation correspondence on identical schedules + metamorphic Spec oracle on the real code; Lean lemmas on recv_strict (in progress)",
+            "Currently: correspondence of the resumable parser model with the real code on every partition of short streams, a timeout at "
+            "every byte position (x1, x2), random schedules, and frames glued to the 101 response; metamorphic oracle on the real outputs. "
+            "Lean: resumption lemmas for recv_strict/recv_frame are being proved; until then this check is correspondence-level for the "
+            "segmentation clause.", "Not modelled: EAGAIN+select path, SSL 'timed out' message matching.", "DESIGN.md §6 C03"),
+    "C04": ("model/implementation correspondence + Spec oracle; Lean lemma on continuous_frame.add (reassembly theorem in progress)",
+            "Correspondence of the recv_data_frame loop model with the real code over every cut of short payloads into <= 4 fragments "
+            "(empty ones included), text/binary, control frames in every gap, multi-message lists, fire_cont_frame and skip_utf8 on/off; "
+            "oracle = concatenation in order with the first fragment's opcode. Lean reassembly theorem in progress.", "", "DESIGN.md §6 C04"),
+    "C05": ("Lean 4 theorem C05_close_codes (code table = RFC ranges for every number)" + T_CORR,
+            "Proof: `C05_close_codes` for every Nat (all 65536 wire values) over the generated tuple and range literals. Frame-level rejection "
+            "(all 256 first bytes x length classes, close bodies of every UTF-8 class, every sequencing history to length 4/5 over "
+            "{T0,T1,B0,B1,C0,C1,ping,pong}) is tied by correspondence and judged by Spec.frameLegal on the real outputs.", "", "DESIGN.md §6 C05"),
+    "C06": ("Lean 4 theorem (validator = Unicode Table 3-7 for all byte strings, via generated DFA table, decide +kernel)" + T_CORR,
             "Proof: `C06_validate : forall bs, validateUtf8 bs = wellFormed bs` over the DFA table regenerated from "
             "_utils.py on every run; the final-state test of _validate_utf8 is a generated fact. Message-level clauses "
             "(fragmentation independence, validation off, close reasons) are tied by the correspondence/oracle runs over "
             "every string of length <= 2, boundary products, all prefixes of well-formed sequences and fragmentations.",
             "Not modelled: wsaccel fast path (absent).", "DESIGN.md §6 C06"),
+    "C07": ("Lean 4 theorem C07_pong_bytes (pong frame decodes to FIN=1/op 10/masked/same payload for all payloads <= 125, all keys)" + T_CORR,
+            "Proof of the bytes of every pong; the ordering discipline (pong immediately after the ping, before any further read, nothing "
+            "written for pongs/data) is checked on the real read/write timeline of the simulated socket for every ping length 0..125, bursts, "
+            "pings inside fragmented messages, byte-wise delivery; trace theorem in progress.", "", "DESIGN.md §6 C07"),
+    "C18": ("Lean 4 theorems C18_parse/C18_reject/C18_total/C18_dial/C18_options/C18_dispatcher" + T_CORR,
+            "Proof: parse_url = RFC 3986 split for every string of the modelled grammar, rejection of everything else with no network "
+            "activity, address loop by induction on address lists of any length, socket options/timeout on every socket tried.",
+            "urlparse/urlsplit modelled on an explicit ASCII alphabet only (driver answers `unmodelled` outside; oracle only there).", "DESIGN.md §6 C18"),
+    "C19": ("Lean 4 theorems C19_exempt/C19_cidr/C19_domain/C19_decision/C19_connect_bytes/C19_gate/C19_order" + T_CORR,
+            "Proof: exemption predicate for all hosts and lists (label-boundary suffix, CIDR arithmetic for every prefix 0..32), proxy "
+            "decision from options/environment, CONNECT bytes parse back (base64 round trip proved), gate on status 200, ordering.",
+            "inet_aton forms other than dotted-quad decimal are `unmodelled`; SOCKS proxies out of scope.", "DESIGN.md §6 C19"),
+    "C20": ("Lean 4 theorem C20_refines (jar refines the domain-scoped store for all histories) + corollaries" + T_CORR,
+            "Proof by induction on the history: the Cookie header is exactly the name-sorted covering entries, latest value winning, then "
+            "the caller's cookie; cookies without Domain are dropped; confinement corollary.",
+            "http.cookies.SimpleCookie's parser is not modelled (canonical Set-Cookie strings only).", "DESIGN.md §6 C20"),
 }
 
 PENDING_REASON = "not yet built in this session (work in progress, see DESIGN.md §8); no check is claimed until its theorem and correspondence exist"
